@@ -21,6 +21,8 @@ BOUNDS = {
              "every SI-prefixed row (symbol = prefix + symbol and name = prefix name + name of another row); operator cross-check on a seeded third of the rows",
     "thorough": "same rows; operator cross-check (real Scalar arithmetic on the components) on every decomposable row",
 }
+BOUNDS_ALSO = "; also (both tiers): operator cross-check on every row; the unit string of the built Scalar parsed back against the row's components (components of distinct quantity types); the row's factor through list and tuple conversion; a refused AddUnit of the row's symbol with other formulas before converting (every 25th row in quick, every 4th in thorough); exact-by-definition constants (foot, inch, yard, mile, nautical mile, pound, g, atm) carry no error budget"
+BOUNDS = {k_: v_ + BOUNDS_ALSO for k_, v_ in BOUNDS.items()}
 ASSUMPTIONS = ["A-FP", "A-TABLE: the oracle's unit grammar and SI-prefix list are the specification (written from the property text)",
                "'to the precision the table is written in' = relative tolerance = sum over the literals involved (the row's and its components', weighted by |exponent|) of one unit in the literal's last "
                "written digit (literals with <= 3 significant digits - 1000, 60, 2.54, 0.5 - count as exact); never tighter than 1e-9",
